@@ -855,6 +855,7 @@ func c12Batch(c *rt.C, decls []*c12Decl, class string) {
 			}
 		} else {
 			c.Event("declaration_does_not_compile")
+			c.Feature("c12:compile-failed/" + decls[0].id + "/" + errSig(err))
 		}
 		return
 	}
